@@ -13,7 +13,7 @@ CHECKS = {
    technique="property-based testing against an independent track/segment reference model (tiling validity predicate)"),
 
  "C09": dict(level="exploration", design="4/C09",
-   text="The single-relation table (4 sides x 2 orthogonal alignments x 4 x 4 reflections x 3 separation kinds = 384) exhaustively; seeded proptest search over placement programs of 1-25 instances (chains and trees over rectangular and two-step outlines, relabelled and shuffled, each placed in two listing orders; some instances handed over through Layout::places; the program cell listed, listed after its user, or reachable only through an instance; a twin cell with shifted roots in the same library must be placed identically), cyclic programs and cells that contain an instance of themselves - directly or through a unit cell, in `instances` or among the objects awaiting placement (must be errors, never a deadlock; literal regression for ab62e2a) - and absolute array instances (count 1-6, pitch in x/y, both reflections, nesting depth <= 3). Oracle: bounding-box model of the relation computed from (location, cell size, reflections), required to equal Instance::boundbox(); reference expansion for arrays.",
+   text="The single-relation table (4 sides x 2 orthogonal alignments x 4 x 4 reflections x 3 separation kinds = 384) exhaustively; seeded proptest search over placement programs of 1-25 instances (chains and trees over rectangular and two-step outlines, relabelled and shuffled, each placed in two listing orders; some instances handed over through Layout::places; the program cell listed, listed after its user, or reachable only through an instance; a twin cell with shifted roots in the same library must be placed identically), cyclic programs and cells that contain an instance of themselves - directly or through a unit cell, in `instances` or among the objects awaiting placement (must be errors, never a deadlock; literal regression for ab62e2a) - programs whose instances are unnamed or share names (sub-check same-names), and absolute array instances (unit cells listed, or reached through arrays nested up to three deep only and holding a relative pair of their own that must come out placed) (count 1-6, pitch in x/y, both reflections, nesting depth <= 3). Oracle: bounding-box model of the relation computed from (location, cell size, reflections), required to equal Instance::boundbox(); reference expansion for arrays.",
    note="Non-orthogonal side/alignment pairs, Center/Ports alignment, placement relative to arrays/groups, relative array placement are unimplemented in the code and outside the quantifier.",
    technique="exhaustive table + property-based testing against a reference placement model; order-independence as a metamorphic relation"),
  "C19": dict(level="exploration", design="4/C19",
@@ -85,7 +85,7 @@ CHECKS = {
    note="Trusted base: the reference encoder in harness/src/refmodel/gdsspec.rs. Conformant = records in BNF order.",
    technique="property-based testing: differential oracle, reference encoder -> reader under test"),
  "C10": dict(level="fault_enumeration", design="4/C10",
-   text="Exhaustive fault enumeration over 30 generated and 3 repository streams: every truncation point (must be rejected before ENDLIB), every single-record fault (length/type/datatype rewrites, empty payload, delete/duplicate/swap/splice) at every record, a well-formed record of each of the 64 record types x 15 payload shapes inserted at every record boundary, floods of 100 000 copies of such a record read on a 2 MB stack, a stream with a 32 KB record, extreme and unnormalised reals, streams whose records grow and shrink in size, a stream with every optional record on every element kind, hierarchies of 8-64 levels each placing the next 2-4 times (a few kilobytes, astronomically many paths), plus proptest-driven byte mutations and noise. Oracle: the call returns (panics caught in-process; aborts, spinning and blocked calls caught by a supervising process with CPU limit and idle detection), a truncated stream is never accepted, and any returned library re-writes and re-reads to itself; allocation volume at most doubles when the input doubles and thread CPU time grows at most 64-fold for a 16-fold input (five stream shapes, repeated up to three times before it counts).",
+   text="Exhaustive fault enumeration over 30 generated and 3 repository streams: every truncation point (must be rejected before ENDLIB), every single-record fault (length/type/datatype rewrites, empty payload, delete/duplicate/swap/splice) at every record, a well-formed record of each of the 64 record types x 15 payload shapes inserted at every record boundary, floods of 100 000 copies of such a record read on a 2 MB stack, a stream with a 32 KB record, streams whose one remarkable record is as long as the format allows (names, strings and property values of 65530/65529/65528 bytes, paths of 8191/8190/8189 points: read, written again, read again), extreme and unnormalised reals, streams whose records grow and shrink in size, a stream with every optional record on every element kind, hierarchies of 8-64 levels each placing the next 2-4 times (a few kilobytes, astronomically many paths), plus proptest-driven byte mutations and noise. Oracle: the call returns (panics caught in-process; aborts, spinning and blocked calls caught by a supervising process with CPU limit and idle detection), a truncated stream is never accepted, and any returned library re-writes and re-reads to itself; allocation volume at most doubles when the input doubles and thread CPU time grows at most 64-fold for a 16-fold input (five stream shapes, repeated up to three times before it counts).",
    note="Termination = returns before the hang watchdog / 60 s CPU; linear time checked on allocation volume and on thread CPU time (n vs 16n). Repository files are faulted at every 9th record in the quick tier, every record in thorough.",
    technique="fault enumeration + property-based byte mutation; crash/hang oracle via supervised child processes; re-write round-trip oracle"),
 
